@@ -169,6 +169,48 @@ def oracle(ctx, rng, n):
             ctx.violation("c14-step-dependent", "pressure drop depends on the step size: %s" % tot, case=case)
 
 
+def oracle_thin_regions(ctx, rng, n):
+    """step-size independence when two axial boundaries are closer together than one step: a plate region a few millimetres
+    thick on top of the lower unrodded region, or a requested plane a few millimetres past a region boundary; every region must
+    accumulate its loss over its own length - the same on the default (<= 1 cm) mesh and on a 1 mm mesh"""
+    for ci in range(n):
+        seed_case = rng.getrandbits(32)
+        thick = rng.choice([0.002, 0.003, 0.0045])
+        use_plane = ci % 2 == 1
+        res = []
+        for mesh in (None, 0.001):
+            crng = random.Random(seed_case)
+            case = single_case(crng, None, True, mesh, 0.4, True, models=('simple', '6node'))
+            regs = case['types']['t0']['AxialRegion']
+            lower = [r_ for r_ in regs if r_['name'] == 'lower']
+            upper = [r_ for r_ in regs if r_['name'] == 'upper']
+            if not lower:
+                lower = [dict(name='lower', z_lo=0.0, z_hi=0.093, vf_coolant=0.4, model='simple', convection_factor=1.0)]
+                regs.insert(0, lower[0])
+            z1 = lower[0]['z_hi']
+            if use_plane:
+                case['setup']['axial_plane'] = [round(z1 + thick, 6)]
+            else:
+                regs.insert(regs.index(lower[0]) + 1, dict(name='plate', z_lo=z1, z_hi=round(z1 + thick, 6), vf_coolant=0.25,
+                                                           model='simple', convection_factor=1.0))
+            try:
+                r, a, parts, per_region, total = run_case(ctx, case, "t%d" % ci)
+            except SystemExit:
+                ctx.count("thin_region_rejected")
+                continue
+            ctx.evals += 1
+            res.append((mesh, len(r.z) - 1, per_region, total, [(type(x).__name__, [float(v) for v in x.z]) for x in a.region]))
+        if len(res) == 2:
+            ctx.count("thin_region_pairs:%s" % ("plane" if use_plane else "plate"))
+            (m0, n0, pr0, t0, z0), (m1, n1, pr1, t1, z1_) = res
+            dev = max(abs(x - y) for x, y in zip(pr0, pr1)) if len(pr0) == len(pr1) else float('inf')
+            if dev > 1e-8 * max(t0, 1.0):
+                ctx.violation("c14-step-dependent:thin-region", "two axial boundaries %.1f mm apart (%s): the regions' pressure drops are "
+                              "%s Pa on the default mesh (%d steps) and %s Pa on a 1 mm mesh (%d steps)"
+                              % (1e3 * thick, "requested plane past a region boundary" if use_plane else "thin plate region",
+                                 [round(x, 3) for x in pr0], n0, [round(x, 3) for x in pr1], n1), case=case, regions=z0)
+
+
 def correspondence(ctx, rng, n):
     """region-level: real RoddedRegion.calculate_pressure_drop step by step vs the fold model"""
     from harness import modelio
@@ -269,6 +311,7 @@ def run(ctx):
     correspondence(ctx, rng, 200 if ctx.thorough else 40)
     oracle(ctx, rng, 60 if ctx.thorough else 16)
     oracle_clones(ctx, rng, 8 if ctx.thorough else 2)
+    oracle_thin_regions(ctx, rng, 8 if ctx.thorough else 3)
     ctx.nontrivial = ctx.evals
     ctx.traces = ctx.evals
     ctx.trusted += ["T1 trace of the per-step increments; hand fold model lean/Dassh/Model/Pressure.lean (its step rule is "
